@@ -7,11 +7,15 @@ real phosg code on every input and compares with the values stored here; it neve
 expected value itself.
 
 Case file (little endian):  "C10C" u32 ncases, then per case
-  u32 case_id, u8 kind (0 exhaustive-length, 1 random-large, 2 extended-length, 3 concurrency set, 4 length ladder, 5 dense length sweep,\n  6 digest-shape-directed input), u8 fill, u8 allsplits, u8 nsplits,
+  u32 case_id, u8 kind (0 exhaustive-length, 1 random-large, 2 extended-length, 3 concurrency set, 4 length ladder, 5 dense length sweep,\n  6 digest-shape-directed input, 7 prior-history pool), u8 fill, u8 allsplits, u8 nsplits,
   u32 len, data[len], md5[16], sha1[20], sha256[32], u32 crc32, u32 fnv1a32, u64 fnv1a64,
   u8 seeded_flags (bit0: crc, bit1: fnv), u32 seed32, u64 seed64, u32 crc32(data, seed32), u32 fnv1a32(data, seed32),
   u64 fnv1a64(data, seed64)    -- expected values for an arbitrary NON-default running value,
   u32 splits[nsplits]
+
+make_cases also writes the prior-history pool (kind 7, one file for all shards, --arg prior_cases=<file>): a small fixed
+set of inputs with all expected values; the harness runs them through every function on a fresh thread right after that
+thread's unrelated earlier uses of phosg's shared helpers (harness/vf_history.hh).
 
 make_cases_mt / make_cases_mt_tsan write the (smaller) input sets of the concurrency stages in the same format
 (kind 3): the harness runs them from 8 threads at once and compares with these single-threaded expected values.
@@ -233,14 +237,36 @@ def _gen_shard(job):
     return count, nbytes
 
 
+# ------------------------------------------------------------------------------------------------
+# prior-history pool: lengths at the padding / block boundaries, a few larger ones; "abc" fixed, the rest seeded.
+
+PRIOR_POOL_LENGTHS = [0, 1, 3, 31, 32, 55, 56, 63, 64, 65, 119, 120, 128, 200, 300, 1000, 4099, 20000]
+
+
+def write_prior_pool(path, seed):
+    r = random.Random("c10-prior-pool-%d" % seed)
+    out = []
+    for j, n in enumerate(PRIOR_POOL_LENGTHS):
+        data = b"abc" if n == 3 else r.randbytes(n)
+        cuts = sorted({n // 2, r.randint(0, n)})
+        out.append(pack_case(20_000_000 + j, 7, 3, 0, data, cuts, r))
+    with open(path + ".tmp", "wb") as f:
+        f.write(b"C10C" + struct.pack("<I", len(out)))
+        f.write(b"".join(out))
+    os.replace(path + ".tmp", path)
+    return len(out)
+
+
 def make_cases(ctx):
     self_test()
     base = os.path.join(ctx["workdir"], "c10_cases")
+    pool = os.path.join(ctx["workdir"], "c10_prior_pool.bin")
+    write_prior_pool(pool, int(ctx["seed"]))
     jobs = [("%s.%d.bin" % (base, s), ctx["tier"], int(ctx["seed"]), s, NSHARDS) for s in range(NSHARDS)]
     with ProcessPoolExecutor(max_workers=min(NSHARDS, os.cpu_count() or 4)) as ex:
         res = list(ex.map(_gen_shard, jobs))
     ctx["c10_generated"] = {"cases": sum(c for c, _ in res), "input_bytes": sum(b for _, b in res)}
-    return ["cases=" + base] + early_args()
+    return ["cases=" + base, "prior_cases=" + pool] + early_args()
 
 
 # ------------------------------------------------------------------------------------------------
